@@ -8,6 +8,8 @@ import (
 	"go/types"
 	"sort"
 	"strings"
+
+	"golang.org/x/tools/go/packages"
 )
 
 // VM rules: POPORDER-1, BC-1 (writer/reader operands), BC-2 (widths), BC-6 (stack), BC-7 (constant pool),
@@ -1148,91 +1150,197 @@ func ruleSibling8(c *Ctx) {
 // ---------- LAZY-1 / LAZY-5 ----------
 
 func ruleLazy(c *Ctx) {
-	c.R.Rule("LAZY", 6, "lazy functions receive thunks, strict ones values: in each back end's argument builder an argument is evaluated only in the not-Lazy branch and deferred (thunk literal / thunk body) in the Lazy branch; a thunk is a single return of the evaluation, with no state (no caching in one back end only)")
+	c.R.Rule("LAZY", 4, "lazy functions receive thunks, strict ones values: in each back end's argument builder an argument is evaluated only in the not-Lazy branch and deferred (thunk literal / thunk body) in the Lazy branch; a thunk is a single return of the evaluation, with no state (no caching in one back end only)")
 	// closure.makeCallClosure
-	check := func(sp, fn string, evalIs func(call *ast.CallExpr) bool, thunkMaker string) {
+	// Semantic form (no names of helpers, no if/else shape): in the argument builder F of a back end
+	//   - every direct evaluation of an argument happens only where "<callee>.Lazy is false" is known (control dependence,
+	//     through every enclosing function literal), exactly one such site;
+	//   - every call of a thunk maker (another function of the package that evaluates an argument, directly or inside a
+	//     val.Fun literal) and every val.Fun literal that evaluates an argument happens only where ".Lazy is true" is known;
+	//   - both kinds of site lie in a loop over the arguments.
+	check := func(sp, fn string, evalIs func(call *ast.CallExpr) bool) {
 		fd := c.FuncDecl(sp, fn)
 		name := sp + "." + fn
 		if fd == nil {
 			c.R.Anchor(name)
 			return
 		}
-		var lazyIf *ast.IfStmt
-		ast.Inspect(fd.Body, func(x ast.Node) bool {
-			if is, ok := x.(*ast.IfStmt); ok && lazyIf == nil && strings.HasSuffix(src(is.Cond), "Lazy") || ok && lazyIf == nil && src(is.Cond) == "lazy" {
-				lazyIf = is
+		pk := c.Mod[sp]
+		containsEval := func(n ast.Node) bool {
+			for _, call := range c.allCallsDeep(n) {
+				if evalIs(call) {
+					return true
+				}
 			}
-			return true
+			return false
+		}
+		makers := map[types.Object]bool{}
+		c.eachFuncDecl(func(p2 *packages.Package, g *ast.FuncDecl) {
+			if p2 != pk || g == fd || g.Body == nil {
+				return
+			}
+			o := p2.TypesInfo.Defs[g.Name]
+			// the evaluator itself (interp / compile) is not a maker
+			isEval := false
+			for _, call := range c.allCallsDeep(fd.Body) {
+				if evalIs(call) && c.calleeObj(call) == o {
+					isEval = true
+				}
+			}
+			if !isEval && containsEval(g.Body) {
+				makers[o] = true
+			}
 		})
-		if lazyIf == nil {
-			c.R.Bad(name, "LAZY-1 branches on the Lazy flag", fd.Pos(), "no `if <fun>.Lazy` found")
+		// facts known at a node, through all enclosing literals
+		known := func(n ast.Node) (lazyTrue, lazyFalse bool) {
+			tcx := c.fnTerms(fd)
+			var chain []ast.Node // innermost first
+			for _, a := range ancestors(fd, n) {
+				switch a.(type) {
+				case *ast.FuncDecl, *ast.FuncLit:
+					chain = append([]ast.Node{a}, chain...)
+				}
+			}
+			at := n
+			for _, f := range chain {
+				var body *ast.BlockStmt
+				switch ff := f.(type) {
+				case *ast.FuncDecl:
+					body = ff.Body
+				case *ast.FuncLit:
+					body = ff.Body
+				}
+				g := c.buildCFG(body)
+				for _, pc := range g.condsAt(at) {
+					for _, ct := range conjuncts(tcx.condTerm(pc)) {
+						if strings.HasSuffix(ct, ".Lazy") && !strings.HasPrefix(ct, "not(") {
+							lazyTrue = true
+						}
+						if strings.HasPrefix(ct, "not(") && strings.HasSuffix(ct, ".Lazy)") {
+							lazyFalse = true
+						}
+					}
+				}
+				at = f
+			}
 			return
 		}
-		nEval := 0
-		bad := ""
-		for _, call := range c.allCallsDeep(fd.Body) {
-			if !evalIs(call) {
-				continue
-			}
-			nEval++
-			inElse := lazyIf.Else != nil && lazyIf.Else.Pos() <= call.Pos() && call.End() <= lazyIf.Else.End()
-			if !inElse {
-				bad = "argument evaluation " + src(call) + " is not confined to the not-Lazy branch"
+		thunkLits := map[*ast.FuncLit]bool{}
+		for _, call := range c.allCallsDeepTo(fd.Body, "val.Fun") {
+			if len(call.Args) == 2 {
+				if lit, ok := call.Args[1].(*ast.FuncLit); ok {
+					thunkLits[lit] = true
+				}
 			}
 		}
-		thenThunks := len(c.allCallsDeepTo(lazyIf.Body, thunkMaker))
-		c.R.Check(bad == "" && nEval == 1 && thenThunks == 1, name, "LAZY-1 arguments evaluated only when not Lazy, deferred when Lazy", lazyIf.Pos(),
-			"Lazy: one thunk per argument; strict: one evaluation per argument", "lazy/strict argument discipline broken: "+bad+fmt.Sprintf(" (evaluations=%d, thunks in Lazy branch=%d)", nEval, thenThunks))
-		// loop covers all arguments ascending
-		var loop *ast.RangeStmt
-		ast.Inspect(fd.Body, func(x ast.Node) bool {
-			if r, ok := x.(*ast.RangeStmt); ok && r.Body.Pos() <= lazyIf.Pos() && lazyIf.End() <= r.Body.End() {
-				loop = r
+		inLit := func(n ast.Node) *ast.FuncLit { // innermost val.Fun thunk literal around n, if any
+			var found *ast.FuncLit
+			for _, a := range ancestors(fd, n) {
+				if lit, ok := a.(*ast.FuncLit); ok && thunkLits[lit] {
+					found = lit
+				}
 			}
-			return true
-		})
-		c.R.Check(loop != nil, name, "LAZY-1 every argument, ascending", lazyIf.Pos(), "range loop over the arguments", "the Lazy test is not inside a range over all arguments")
+			return found
+		}
+		inLoop := func(n ast.Node) bool {
+			for _, a := range ancestors(fd, n) {
+				switch s := a.(type) {
+				case *ast.RangeStmt:
+					return true
+				case *ast.ForStmt:
+					if ls := c.absLoops(s, nil); len(ls) > 0 && ls[0].stmt == ast.Stmt(s) {
+						return true
+					}
+				}
+			}
+			return false
+		}
+		nStrict, nDeferred := 0, 0
+		var bad []string
+		var first ast.Node = fd
+		for _, call := range c.allCallsDeep(fd.Body) {
+			switch {
+			case evalIs(call) && inLit(call) == nil:
+				nStrict++
+				first = call
+				_, lf := known(call)
+				if !lf {
+					bad = append(bad, "argument evaluation "+src(call)+" is not confined to the not-Lazy case")
+				}
+				if !inLoop(call) {
+					bad = append(bad, "argument evaluation "+src(call)+" is not in a loop over the arguments")
+				}
+			case evalIs(call):
+				// inside a thunk literal: the literal must be created under Lazy
+				nDeferred++
+				lt, _ := known(inLit(call))
+				if !lt {
+					bad = append(bad, "thunk around "+src(call)+" is not created under the Lazy case only")
+				}
+			case makers[c.calleeObj(call)]:
+				nDeferred++
+				lt, _ := known(call)
+				if !lt {
+					bad = append(bad, "deferred evaluation "+src(call)+" is not confined to the Lazy case")
+				}
+				if !inLoop(call) {
+					bad = append(bad, "deferred evaluation "+src(call)+" is not in a loop over the arguments")
+				}
+			}
+		}
+		c.R.Check(len(bad) == 0 && nStrict == 1 && nDeferred >= 1, name, "LAZY-1 arguments evaluated only when not Lazy, deferred when Lazy", first.Pos(),
+			"Lazy: one thunk per argument; strict: one evaluation per argument", "lazy/strict argument discipline broken: "+strings.Join(bad, "; ")+fmt.Sprintf(" (strict evaluation sites=%d, deferred sites=%d)", nStrict, nDeferred))
 	}
 	check("closure", "makeCallClosure", func(call *ast.CallExpr) bool {
 		return c.calleeObj(call) == nil && typeStr(c.typeOf(call.Fun)) == "compiler.Closure"
-	}, "closure.thunkify")
-	check("interp", "interpArgs", func(call *ast.CallExpr) bool { return c.calleeName(call) == "interp.interp" }, "interp.thunkify")
-	check("vm", "bytecode.compileInvokeStatic", func(call *ast.CallExpr) bool { return c.calleeName(call) == "vm.bytecode.compile" }, "vm.newThunk")
+	})
+	check("interp", "interpArgs", func(call *ast.CallExpr) bool { return c.calleeName(call) == "interp.interp" })
+	check("vm", "bytecode.compileInvokeStatic", func(call *ast.CallExpr) bool { return c.calleeName(call) == "vm.bytecode.compile" })
 
 	// LAZY-5 thunk literals
 	thunkLit := func(sp, fn, evalName string, dyn bool) {
-		fd := c.FuncDecl(sp, fn)
+		// every val.Fun(.., literal) in the package (or in the named function, for the VM) whose literal evaluates an argument
+		isEval := func(ce *ast.CallExpr) bool {
+			if dyn {
+				return c.calleeObj(ce) == nil && typeStr(c.typeOf(ce.Fun)) == "compiler.Closure"
+			}
+			return c.calleeName(ce) == evalName
+		}
 		name := sp + "." + fn
-		if fd == nil {
-			c.R.Anchor(name)
-			return
-		}
 		n := 0
-		for _, call := range c.allCallsDeepTo(fd.Body, "val.Fun") {
-			lit, ok := call.Args[1].(*ast.FuncLit)
-			if !ok {
-				continue
+		c.eachFuncDecl(func(pk *packages.Package, fd *ast.FuncDecl) {
+			if short(pk.PkgPath) != sp || fd.Body == nil || (fn != "" && fd.Name.Name != fn) {
+				return
 			}
-			if fn == "switchThreading" {
-				// only the literal in OP_CALL_BY_NEED
-			}
-			n++
-			okT := len(lit.Body.List) == 1
-			if okT {
-				r, isRet := lit.Body.List[0].(*ast.ReturnStmt)
-				okT = isRet && len(r.Results) == 1
-				if okT {
-					ce, isCall := unparen(r.Results[0]).(*ast.CallExpr)
-					okT = isCall && ((dyn && c.calleeObj(ce) == nil) || c.calleeName(ce) == evalName)
+			for _, call := range c.allCallsDeepTo(fd.Body, "val.Fun") {
+				lit, ok := call.Args[1].(*ast.FuncLit)
+				if !ok {
+					continue
 				}
+				has := false
+				for _, ce := range c.allCallsDeep(lit.Body) {
+					if isEval(ce) {
+						has = true
+					}
+				}
+				if !has {
+					continue
+				}
+				n++
+				paths, pok := c.retPaths(lit.Body.List)
+				okT := pok && len(paths) == 1 && paths[0].end == "return" && len(paths[0].stmts) == 0 && len(paths[0].conds) == 0 && len(paths[0].ret.Results) == 1
+				if okT {
+					ce, isCall := unparen(paths[0].ret.Results[0]).(*ast.CallExpr)
+					okT = isCall && isEval(ce)
+				}
+				c.R.Check(okT, fnName(sp, fd), "LAZY-5 thunk is a single return of the evaluation", lit.Pos(), "stateless: forcing twice evaluates twice, as in the other back ends", "the thunk keeps state or does more than evaluate (e.g. caches its first value): the number of host-function calls differs between back ends")
 			}
-			c.R.Check(okT, name, "LAZY-5 thunk is a single return of the evaluation", lit.Pos(), "stateless: forcing twice evaluates twice, as in the other back ends", "the thunk keeps state or does more than evaluate (e.g. caches its first value): the number of host-function calls differs between back ends")
-		}
+		})
 		if n == 0 {
-			c.R.Bad(name, "LAZY-5 thunk literal", fd.Pos(), "no val.Fun(.., func literal) found")
+			c.R.Bad(name, "LAZY-5 thunk literal", token.NoPos, "no val.Fun(.., func literal) that evaluates an argument found")
 		}
 	}
-	thunkLit("closure", "thunkify", "", true)
-	thunkLit("interp", "thunkify", "interp.interp", false)
+	thunkLit("closure", "", "", true)
+	thunkLit("interp", "", "interp.interp", false)
 	thunkLit("vm", "switchThreading", "vm.VM.call0", false)
 }
